@@ -27,7 +27,7 @@ def is_iter_value(t, uid):
     return isinstance(t, tuple) and len(t) > 3 and t[0] == "call" and t[3] == uid
 
 
-def complete_apply_all(path, iter_uid, fn_re):
+def complete_apply_all(path, iter_uid, fn_re, closure_applies=None):
     """The iterator created by call #iter_uid is driven to exhaustion by plain `next` calls and every element it
     yields is passed (as the `&mut` it is) to a function matching fn_re before the following `next`.
     -> (ok, explanation)"""
@@ -42,11 +42,21 @@ def complete_apply_all(path, iter_uid, fn_re):
     nexts = []
     for i in range(idx + 1, len(tr)):
         e = tr[i]
+        if e[0] == "call" and e[1].endswith("::for_each") and len(e[2]) == 2 and is_iter_value(e[2][0], iter_uid) and closure_applies is not None and not nexts:
+            # iter_mut().for_each(|r| r.close()): for_each drives the iterator to exhaustion and applies the closure to every element
+            if closure_applies(e[2][1]):
+                return True, "for_each over the whole iterator with a closing closure"
+            return False, "for_each with a closure that does not apply the closing function to its element"
         if e[0] != "call" or e[3] is None:
             continue
         if any(is_iter_value(a, iter_uid) for a in e[2]):
             if MUT_ITER_NEXT.search(e[1]):
                 nexts.append((i, e))
+            elif e[1].endswith("::for_each") and len(e[2]) == 2 and closure_applies is not None and not nexts:
+                # iter_mut().for_each(|r| r.close()): for_each drives the iterator to exhaustion and applies the closure to every element
+                if closure_applies(e[2][1]):
+                    return True, "for_each over the whole iterator with a closing closure"
+                return False, "for_each with a closure that does not apply the closing function to its element"
             else:
                 return False, "the iterator is passed to %s (only a plain `next` loop is recognised)" % e[1]
     if not nexts:
